@@ -39,7 +39,7 @@ import (
 
 const c16Rule = "Random Engine C history (general mix, plus a scripted application with boxes and an asset so that kvs and resources exist) on a producer that stores catchpoint files " +
 	"(interval 4/8, CatchpointLookback 4/8, one protocol variant with a 16-round balance lookback); a drawn catchpoint round R with a later catchpoint round behind it; full catch-up of a fresh ledger " +
-	"(drawn configuration) from the served file, then the remaining blocks are fed to it. Per case 2-3 single tamperings of the file (account balance/status/rewards base/auth address, holding amount, " +
+	"(drawn configuration) from the served file, then the remaining blocks are fed to it. Per case 4-6 single tamperings of the file (account balance/status/rewards base/auth address, holding amount, " +
 	"app global/local value, kv value/key byte, online-account and online-round-params fields, header totals/version/blocks round, added state-proof context, record drop/duplicate, chunk drop/duplicate/truncate) " +
 	"are replayed on fresh ledgers. Non-trivial: the file has >=2 balances chunks and holds kvs, resources and online accounts, and at least one tampering hit a chunk other than the first. " +
 	"Distinct: by the trace of blocks, the chosen round and the tamperings."
@@ -875,7 +875,7 @@ func c16Run(tb *testing.T, t *rapid.T, vk *vkCtx, protos []cpxProto) {
 			other = append(other, q)
 		}
 	}
-	nT := rapid.IntRange(2, 3).Draw(t, "nTampers")
+	nT := rapid.IntRange(4, 6).Draw(t, "nTampers")
 	var applied []c16Tamper
 	nonFirst := false
 	for i := 0; i < nT; i++ {
